@@ -6,7 +6,7 @@ import ast
 from ..lin import Lin, Infeasible
 from ..avals import *   # noqa
 from ..avals import value_tags
-from ..decide import Runs, need_ge0, need_eq0, definite, soft, iterations
+from ..decide import require_instances, Runs, need_ge0, need_eq0, definite, soft, iterations
 from ..report import Ob, PROVED, REFUTED, UNDECIDED, func_where, ASSUMPTIONS, Failure
 from ..model import norm_text, AnalysisError
 from ..units import exc_key
@@ -141,6 +141,7 @@ def check(prog, res, tier):
 
     # ---- C18.b/c __next__: filter and fixed columns
     nfi = ci.lookup('__next__')[1]
+    seen_b = {}
     for expanded in (False, True):
         tag = 'expanded' if expanded else 'compressed'
 
@@ -181,6 +182,7 @@ def check(prog, res, tier):
                 col = next((c for k, c in cols if k is key or (isinstance(k, SeqV) and isinstance(key, SeqV) and repr(k) == repr(key))), None)
                 if col is None:
                     continue
+                seen_b['full', tag] = seen_b.get(('full', tag), 0) + (mode == 'inv')
                 v = it.resolve(e.data['value'])
                 row = rows[-1].segs[0].src
                 s_, e_ = col.items['start'].lin, col.items['end'].lin
@@ -201,10 +203,12 @@ def check(prog, res, tier):
                 if c is not it.user['enc']:
                     fails.append(definite(f'column text is decoded with {c!r}, not the reader\'s encoding', e.node))
             return fails
-        res.add(runs_full.judge('C18.b', f'{tag} rows read through __next__: every configured column comes back as '
-                                         f'record[start+off:end+off] decoded with the reader\'s encoding (off = {"0" if expanded else "-8"})',
-                                func_where(nfi), "record_dict[field] = record[start + field_offset:end + field_offset].decode(...)",
-                                chk_full, rule=f'C18.b.next.{tag}'))
+        res.add(require_instances(
+            runs_full.judge('C18.b', f'{tag} rows read through __next__: every configured column comes back as '
+                                     f'record[start+off:end+off] decoded with the reader\'s encoding (off = {"0" if expanded else "-8"})',
+                            func_where(nfi), "record_dict[field] = record[start + field_offset:end + field_offset].decode(...)",
+                            chk_full, rule=f'C18.b.next.{tag}'),
+            seen_b.get(('full', tag)), 'a value stored in the row dictionary under a configured column name'))
 
         def chk_n(p, mode, expanded=expanded):
             if p.outcome != 'return':
@@ -245,7 +249,7 @@ def check(prog, res, tier):
                 good = isinstance(x, SeqV) and len(x.segs) == 1 and isinstance(x.segs[0], Sl) and x.segs[0].src is row and \
                     st.decide_eq0(x.segs[0].lo - lo) is True and st.decide_eq0(x.segs[0].hi - hi) is True
                 if not good:
-                    recognised = isinstance(x, SeqV) and len(x.segs) == 1 and isinstance(x.segs[0], Sl) and x.segs[0].src is row
+                    recognised = isinstance(x, SeqV)      # a known text value that is not the expected slice of the row
                     if recognised or (x is None and not (v.open or v.sym_stores or getattr(v, 'merged', None))):
                         fails.append(definite(f'{tag} row: {name} is {x!r}, expected row[{lo}:{hi}]'))
                     else:
@@ -277,14 +281,30 @@ def check(prog, res, tier):
                 if len(sets) != 1:
                     fails.append(definite(f'{len(sets)} values stored per configured column', head.node))
                     continue
+                seen_b['cols', tag] = seen_b.get(('cols', tag), 0) + (mode == 'inv')
                 key = sets[0].data['key']
                 names = [col] + (list(col.items[:1]) if isinstance(col, TupleV) else [])
                 if not any(key is c for c in names):
                     fails.append(definite(f'column value stored under {key!r}, not the column name', sets[0].node))
+            # record_dict.update((column, value) for column in <configured columns>): the same, written as one call
+            cols = p.interp.user.get('cols', [])
+            for e in p.events:
+                if e.kind == 'setitem' and e.data.get('generic') and e.under(nfi.short):
+                    key = p.interp.resolve(e.data['key'])
+                    is_col = isinstance(key, SeqV) and len(key.segs) == 1 and isinstance(key.segs[0], Sl) and \
+                        str(getattr(key.segs[0].src, 'name', '')).startswith('column_name')
+                    if not (is_col or any(k is key for k, c in cols)):
+                        continue
+                    if e.data.get('filtered'):
+                        fails.append(soft('the configured columns are filtered before their values are stored', e.node))
+                    else:
+                        seen_b['cols', tag] = seen_b.get(('cols', tag), 0) + (mode == 'inv')
             return fails
-        res.add(runs_n.judge('C18.b', f'{tag} rows: one value is stored per configured column of the table, under its name',
-                             func_where(nfi), 'for field in self.param_config[record_table_id]: record_dict[field] = ...', chk_cols,
-                             rule=f'C18.b.cols.{tag}'))
+        res.add(require_instances(
+            runs_n.judge('C18.b', f'{tag} rows: one value is stored per configured column of the table, under its name',
+                         func_where(nfi), 'for field in self.param_config[record_table_id]: record_dict[field] = ...', chk_cols,
+                         rule=f'C18.b.cols.{tag}'),
+            seen_b.get(('cols', tag)), 'a loop over the configured columns that stores one value per column'))
 
     # ---- C18.d refusals
     ifi = ci.lookup('__init__')[1]
